@@ -5,12 +5,13 @@ from harness.common import sim
 
 PROP = "C56"
 LEAN_MODULES = ["LunaVerif.Props.C56", "LunaVerif.Props.C56Stream", "LunaVerif.Props.C56Spi",
-                "LunaVerif.Lemmas.C56StreamAny", "LunaVerif.Props.C56Uart"]
+                "LunaVerif.Lemmas.C56StreamAny", "LunaVerif.Props.C56Uart", "LunaVerif.Props.C56Cdc"]
 DRIVER = "Driver/C56.lean"
 REQUIRED_THEOREMS = ["captures_depth_consecutive_samples", "readback_nth", "trigger_during_capture_ignored",
                      "pretrigger_delay", "stream_readout_exact", "stream_readout_complete",
                      "stream_readout_returns_idle", "spi_readout_words", "stream_readout_any", "uart_readout_exact",
-                     "uart_readout_complete", "uart_readout_decoded", "decode_wave", "mb_line", "mb_bytes"]
+                     "uart_readout_complete", "uart_readout_decoded", "decode_wave", "mb_line", "mb_bytes",
+                     "queue_conservation", "cdc_readout_in_order", "cdc_readout_complete"]
 RULE = ("cases = (sample_depth in {1,2,5,32,100} (+3,4,7,8,16,33 thorough), samples_pretrigger 0..3, domain sync/usb, "
         "three captured signals of 1+8+5 bits) x pattern: triggers sparse / held high / bursts / random incl. during "
         "capture; inputs random every cycle or a counter; captured_sample_number sweeps and random reads, also while "
@@ -25,7 +26,14 @@ RULE = ("cases = (sample_depth in {1,2,5,32,100} (+3,4,7,8,16,33 thorough), samp
         "{1,2,3} (+5,7) x probe widths 1/14/24 bits (1/2/4 bytes per sample), the four trigger patterns (also during "
         "capture and read-out) followed by a trigger-free tail long enough for the last read-out; tx, sampling, complete "
         "and the internal stream handshake between StreamILA and the UART transmitter are compared with the model; "
-        "the monitor decodes tx with an independent 8N1 receiver")
+        "the monitor decodes tx with an independent 8N1 receiver; kind 4 = StreamILA(domain=sync, o_domain=usb) "
+        "simulated with two free-running clocks (capture domain 10 ns; output domain 3 / 7 / 10 / 13 / 23 ns with "
+        "fractional phase offsets so that edges never coincide), depths {1,3,40} (+2,5,16,17,20 thorough; 40 > the FIFO's "
+        "depth, so w_rdy falls with a slow consumer), trigger patterns as before, output ready always / 40% / on-off "
+        "bursts, trigger-free always-ready tail; one row per clock cycle of either domain in the order of the clock "
+        "edges; the model's FIFO is an abstract queue with the observed w_rdy / r_rdy as oracle inputs: the comparison "
+        "checks the internal stream (FIFO write port), the output stream whenever valid, and that the real FIFO never "
+        "shows r_rdy when the queue of the words written and not yet read is empty")
 ASSUMPTIONS = ["sample_depth >= 1", "captured_sample_number < sample_depth (addresses beyond a non-power-of-two depth are not driven)",
                "StreamILA: o_domain == domain (no clock-domain-crossing FIFO between the read-out FSM and the stream)",
                "SyncSerialILA monitor (judged chip-select windows): no capture running and no trigger from 2 cycles before "
@@ -42,7 +50,12 @@ ASSUMPTIONS = ["sample_depth >= 1", "captured_sample_number < sample_depth (addr
                "uart_readout_complete / uart_readout_decoded: the transmitter is quiescent at the start, and the history is "
                "long enough that at its end the wrapper is idle again and the transmitter quiescent (no bound on the "
                "length of the read-out is proved; the monitor checks on the real gateware that a trigger-free tail of "
-               "one read-out time suffices)"]
+               "one read-out time suffices)",
+               "cdc_readout_in_order (StreamILA with o_domain != domain): Amaranth's AsyncFIFOBuffered behaves as an "
+               "in-order queue (w_rdy / r_rdy arbitrary, r_rdy only when a word is in the queue: Legal) - library code, "
+               "not proved, validated on every simulated two-clock trace; any interleaving of the two clocks' edges; "
+               "o_domain must not be the literal name 'sync' when domain != 'sync' (the class's DomainRenamer would "
+               "rename the FIFO's read side too)"]
 PARTIAL = ("the IntegratedLogicAnalyzer core, the StreamILA read-out (same clock domain) and the SyncSerialILA read-out "
            "are modelled, co-simulated and proved; for SyncSerialILA the theorem (spi_readout_words) says which word "
            "the SPI interface loads into its transmit register for each word of a chip-select window (recorded sample k "
@@ -51,10 +64,16 @@ PARTIAL = ("the IntegratedLogicAnalyzer core, the StreamILA read-out (same clock
            "bit-level view on the real gateware). AsyncSerialILA (UART read-out) is modelled, co-simulated and proved "
            "down to the tx waveform (uart_readout_exact / _complete / _decoded); not proved there: an upper bound on the "
            "duration of the read-out (the complete statement assumes a history at whose end wrapper and transmitter are "
-           "idle again). StreamILA's optional AsyncFIFO to another o_domain is not covered")
+           "idle again). StreamILA with o_domain != domain is proved over an abstract in-order-queue model of Amaranth's "
+           "AsyncFIFOBuffered (cdc_readout_in_order / _complete: any clock interleaving, any w_rdy / r_rdy behaviour within "
+           "the queue contract); that the library FIFO's Gray-code implementation meets that contract for all histories, "
+           "and that it eventually delivers (liveness), is validated on the simulated two-clock traces only")
 
 WIDTHS = [1, 8, 5]
 TOTAL = sum(WIDTHS)
+# output-domain clock (period, phase of the first edge) in ns; the capture domain has period 10 ns, edges at 5, 15, ...;
+# the fractional phases keep the edges of the two clocks apart
+CDC_CLOCKS = [(3, 1.25), (7, 2.5), (10, 7.75), (13, 0.5), (23, 11.25)]
 UART_WIDTHS = [[1], [1, 8, 5], [1, 8, 5, 10]]     # bits_per_sample 1 / 16 / 32 -> 1 / 2 / 4 bytes per sample
 
 
@@ -95,6 +114,16 @@ def gen_cases(tier, rng):
                 for _ in range(uper):
                     out.append({"kind": 3, "depth": D, "pre": k % 4, "divisor": dv, "widths": UART_WIDTHS[wi],
                                 "domain": "usb" if k % 5 == 4 else "sync", "seed": rng.u64(), "k": k})
+                    k += 1
+    # StreamILA with o_domain != domain (kind 4): two unrelated clocks, the AsyncFIFOBuffered in between
+    cdepths = [1, 3, 40] if tier != "thorough" else [1, 2, 3, 5, 16, 17, 20, 40]
+    cper = {"quick": 1, "widen": 2, "thorough": 2}[tier]
+    for D in cdepths:
+        for (po, ph) in CDC_CLOCKS:
+            for rmode in range(3):
+                for _ in range(cper):
+                    out.append({"kind": 4, "depth": D, "pre": k % 4, "period_o": po, "phase_o": ph, "rmode": rmode,
+                                "seed": rng.u64(), "k": k})
                     k += 1
     return out
 
@@ -189,6 +218,8 @@ def run_case(desc):
         return run_spi_case(desc)
     if desc.get("kind", 0) == 3:
         return run_uart_case(desc)
+    if desc.get("kind", 0) == 4:
+        return run_cdc_case(desc)
     from amaranth import Signal
     from luna.gateware.debug.ila import IntegratedLogicAnalyzer
     D, p, dom = desc["depth"], desc["pre"], desc.get("domain", "sync")
@@ -705,3 +736,226 @@ def run_uart_case(desc):
             "u-trigger-blocked" if stats["blocked"] else "u-no-blocked-trigger"]
     return Case([3, D, p, dv, nbytes], stim, rows, fails, tags, desc, ["trigger", "inputs"],
                 ["sampling", "complete", "tx", "ila.stream.valid", "ila.stream.ready", "ila.stream.payload"])
+
+
+# ---------------------------------------------------------------------------------------------------------------
+# StreamILA with o_domain != domain: the read-out crosses into another clock domain through an AsyncFIFOBuffered
+# ---------------------------------------------------------------------------------------------------------------
+
+CDC_PERIOD_I = 10      # ns
+
+
+def make_cdc_stimulus(D, p, po, rmode, rng, k):
+    """Capture-domain rows [trigger, inputs] and output-domain rows [ready].  Triggers in the four patterns for a
+    while, then a trigger-free tail during which the output stream is always ready, long enough for the last read-out
+    to cross the FIFO completely."""
+    pi = CDC_PERIOD_I
+    readout_ns = (2 * D + 12) * pi + (3 * D + 14) * po
+    active = 2 * (D + 4) + 2 * (readout_ns // pi) + rng.range(0, 30)
+    tail = D + 4 + readout_ns // pi + 10
+    tmode = k % 4
+    rows_i = []
+    burst = 0
+    for t in range(active + tail):
+        if t >= active:
+            trig = 0
+        elif tmode == 0:
+            trig = int(rng.chance(max(1, 300 // (D + 6 + readout_ns // pi))))
+        elif tmode == 1:
+            trig = 1
+        elif tmode == 2:
+            if burst > 0:
+                burst -= 1
+                trig = 1
+            else:
+                trig = 0
+                if rng.chance(5):
+                    burst = rng.range(1, D + 3)
+        else:
+            trig = int(rng.chance(30))
+        if t < 3 and rng.chance(50):
+            trig = 0
+        rows_i.append([trig, rng.bits(TOTAL)])
+    n_o = ((active + tail) * pi) // po
+    n_active_o = (active * pi) // po
+    rows_o = []
+    rburst, rval = 0, 1
+    for t in range(n_o):
+        if t >= n_active_o:
+            ready = 1
+        elif rmode == 0:
+            ready = 1
+        elif rmode == 1:
+            ready = int(rng.chance(40))
+        else:
+            if rburst == 0:
+                rval = 1 - rval
+                rburst = rng.range(1, 2 * D + 24)
+            rburst -= 1
+            ready = rval
+        rows_o.append([ready])
+    return rows_i, rows_o
+
+
+def run_two_clocks(D, p, po, ph, rows_i, rows_o):
+    """Simulates the real StreamILA(domain="sync", o_domain="usb") with two free-running clocks.  Returns the list of
+    clock cycles of both domains in the order of the clock edges that end them:
+    ("i", [trigger, inputs], (sampling, complete, w_en, w_data, w_rdy)) / ("o", [ready], (valid, payload, first, last)).
+    The FIFO instance is only *observed* (its write port is where the internal stream of the wrapper is visible)."""
+    from amaranth import Signal
+    from amaranth.hdl import Fragment
+    from amaranth.sim import Simulator
+    import luna.gateware.debug.ila as ila_mod
+    sigs = [Signal(w, name="probe%d" % j) for j, w in enumerate(WIDTHS)]
+    dut = ila_mod.StreamILA(signals=sigs, sample_depth=D, samples_pretrigger=p, domain="sync", o_domain="usb")
+    top = sim._Wrap(dut, ["sync", "usb"])
+    made = []
+    real = ila_mod.AsyncFIFOBuffered
+
+    def recording(**kw):
+        f = real(**kw)
+        made.append(f)
+        return f
+    ila_mod.AsyncFIFOBuffered = recording
+    try:
+        frag = Fragment.get(top, None)
+    finally:
+        ila_mod.AsyncFIFOBuffered = real
+    assert len(made) == 1, "StreamILA did not instantiate exactly one AsyncFIFOBuffered"
+    fifo = made[0]
+    s = Simulator(frag)
+    s.add_clock(CDC_PERIOD_I * 1e-9, domain="sync")
+    s.add_clock(po * 1e-9, phase=ph * 1e-9, domain="usb")
+    events = []
+    st = dut.stream
+
+    async def tb_i(ctx):
+        for r in rows_i:
+            ctx.set(dut.trigger, r[0])
+            v = r[1]
+            for sg, w in zip(sigs, WIDTHS):
+                ctx.set(sg, v & ((1 << w) - 1))
+                v >>= w
+            o = (ctx.get(dut.sampling), ctx.get(dut.complete), ctx.get(fifo.w_en), ctx.get(fifo.w_data), ctx.get(fifo.w_rdy))
+            await ctx.tick("sync")
+            events.append(("i", r, o))
+
+    async def tb_o(ctx):
+        for r in rows_o:
+            ctx.set(st.ready, r[0])
+            o = (ctx.get(st.valid), ctx.get(st.payload), ctx.get(st.first), ctx.get(st.last))
+            await ctx.tick("usb")
+            events.append(("o", r, o))
+
+    s.add_testbench(tb_i)
+    s.add_testbench(tb_o)
+    s.run()
+    return events, dut.bits_per_sample
+
+
+def monitor_cdc(D, p, events, bps):
+    """The property on the real two-clock trace: the words transferred on the output stream (valid & ready in cycles of
+    the output domain) are, capture after capture, the D consecutive (delayed) samples that followed each accepted
+    trigger, in order, each once, `first` on sample 0 and `last` on sample D-1; `sampling` / `complete` as for the core.
+    A trigger is accepted when no capture / read-out is in progress; the end of a read-out (the D-th write into the FIFO)
+    is taken from the real FIFO's write port.  The trace ends with a trigger-free, always-ready tail: every captured
+    sample must have come out."""
+    fails = []
+
+    def fail(t, sig, what):
+        fails.append({"cycle": t, "sig": sig, "what": "StreamILA+CDC depth=%d pretrigger=%d event %d: %s" % (D, p, t, what)})
+
+    busy, start, complete, written = False, None, 0, 0
+    expected = []        # framed samples of all captures, in order
+    got = 0
+    ins = []             # capture-domain inputs so far
+    stats = {"captures": 0, "readouts": 0, "blocked": 0, "fifo_full": 0, "out_stalled": 0, "out_words": 0}
+    for n, (dom, r, o) in enumerate(events):
+        if dom == "i":
+            t = len(ins)
+            ins.append(r[1])
+            trig = r[0] & 1
+            sampling, cpl, w_en, _w_data, w_rdy = o
+            capturing = busy and start <= t < start + D
+            delayed = ins[t - p] if t - p >= 0 else 0
+            if sampling != int(capturing):
+                fail(n, "cdc-sampling-window", "sampling=%d requires %d" % (sampling, int(capturing)))
+                return fails, stats
+            if cpl != complete:
+                fail(n, "cdc-complete-flag", "complete=%d requires %d" % (cpl, complete))
+                return fails, stats
+            done_now = False
+            if busy and not w_rdy:
+                stats["fifo_full"] += 1
+            if w_en and w_rdy:
+                written += 1
+                if busy and written == D:
+                    done_now = True
+            if capturing:
+                k = t - start
+                expected.append((delayed, int(k == 0), int(k == D - 1)))
+                if k == D - 1:
+                    complete = 1
+            if busy and trig:
+                stats["blocked"] += 1
+            if done_now:
+                busy = False
+                stats["readouts"] += 1
+            elif not busy and trig:
+                busy, start, complete, written = True, t + 1, 0, 0
+                stats["captures"] += 1
+        else:
+            valid, payload, first, last = o
+            if valid and not r[0]:
+                stats["out_stalled"] += 1
+            if valid and r[0]:
+                if got >= len(expected):
+                    fail(n, "cdc-spurious-word", "word %#x on the output stream, but only %d samples have been captured"
+                         % (payload, len(expected)))
+                    return fails, stats
+                want = expected[got]
+                if payload != want[0]:
+                    fail(n, "cdc-payload", "word %d on the output stream is %#x, the recorded sample is %#x" % (got, payload, want[0]))
+                    return fails, stats
+                if first != want[1]:
+                    fail(n, "cdc-first-flag", "first=%d on word %d (sample %d of its capture)" % (first, got, got % D))
+                    return fails, stats
+                if last != want[2]:
+                    fail(n, "cdc-last-flag", "last=%d on word %d (sample %d of %d of its capture)" % (last, got, got % D, D))
+                    return fails, stats
+                got += 1
+    stats["out_words"] = got
+    if got != len(expected):
+        fail(len(events) - 1, "cdc-missing-words", "%d words came out of the output stream, %d samples were captured (the trace "
+             "ends with a trigger-free, always-ready tail long enough for the whole read-out)" % (got, len(expected)))
+    return fails, stats
+
+
+def run_cdc_case(desc):
+    D, p, po, ph = desc["depth"], desc["pre"], desc["period_o"], desc["phase_o"]
+    if desc.get("stimulus"):
+        # replay: rows as piped to the model ([0, trigger, inputs, w_rdy] / [1, r_en, r_rdy, 0]); the oracle columns are
+        # regenerated by the simulation, the interleaving by the clocks
+        rows_i = [[r[1] & 1, r[2] & ((1 << TOTAL) - 1)] for r in desc["stimulus"] if r[0] == 0]
+        rows_o = [[r[1] & 1] for r in desc["stimulus"] if r[0] != 0]
+    else:
+        rows_i, rows_o = make_cdc_stimulus(D, p, po, desc.get("rmode", 0), Rng(desc["seed"]), desc.get("k", 0))
+    events, bps = run_two_clocks(D, p, po, ph, rows_i, rows_o)
+    fails, stats = monitor_cdc(D, p, events, bps)
+    inputs, outputs = [], []
+    for dom, r, o in events:
+        if dom == "i":
+            sampling, cpl, w_en, w_data, w_rdy = o
+            inputs.append([0, r[0], r[1], w_rdy])
+            outputs.append([sampling, cpl, w_en, (w_data >> 1) & ((1 << bps) - 1), w_data & 1, (w_data >> (bps + 1)) & 1, 1])
+        else:
+            valid, payload, first, last = o
+            inputs.append([1, r[0], valid, 0])
+            outputs.append([None, None, valid] + ([payload, first, last] if valid else [None, None, None]) + [1])
+    tags = ["kind=cdc", "c-depth=%d" % D, "c-period-o=%d" % po, "c-rmode=%d" % desc.get("rmode", 0), "c-pre=%d" % p,
+            "c-readouts>=2" if stats["readouts"] >= 2 else "c-readouts=%d" % stats["readouts"],
+            "c-trigger-blocked" if stats["blocked"] else "c-no-blocked-trigger",
+            "c-fifo-full" if stats["fifo_full"] else "c-fifo-never-full",
+            "c-output-stalled" if stats["out_stalled"] else "c-output-never-stalled"]
+    return Case([4, D, p], inputs, outputs, fails, tags, desc, ["domain", "trigger|r_en", "inputs|r_rdy", "w_rdy|-"],
+                ["sampling", "complete", "w_en|valid", "payload", "first", "last", "queue-contract-ok"])
